@@ -66,7 +66,9 @@ def run(ck):
     # `e.store_status == STORE_OK` is normalised to the atom `e.store_status` == F because STORE_OK is the enumerator 0
     ck.need(any(cv == 0 for (n, f, l, op, cv) in facts.writers(SE + "store_status") if n == SE + "complete"),
             "C19: STORE_OK is no longer the zero enumerator written by StoreEntry::complete (re-confirm the P2 instance)")
-    ck.require_any_fact("P2.publish-only-complete", fl, done, [(E.m_is_mem(SE + "store_status"), False), (E.m_cmp("==", E.m_is_mem(SE + "store_status"), E.M(lambda t: "STORE_OK" in E.mentions(t), "STORE_OK")), True)],
+    hoisted = E.M(lambda t: E.strip(t).get("k") == "ref" and E.strip(t).get("dk") == "local" and {SE + "store_status", "STORE_OK"} <= ck.closure_mentions(wr, t), "local(store_status == STORE_OK)")
+    ck.require_any_fact("P2.publish-only-complete", fl, done, [(E.m_is_mem(SE + "store_status"), False), (hoisted, True),
+                                                               (E.m_cmp("==", E.m_is_mem(SE + "store_status"), E.M(lambda t: "STORE_OK" in E.mentions(t), "STORE_OK")), True)],
                         "completeWriting()", why="(readers in other workers would take an entry that is still being received for a complete one)")
     ck.require_passed("P2.publish-only-complete", fl, done, "copied", "completeWriting()", why="(the last bytes would not be in shared memory when the entry becomes complete)")
     for st in ("ioDone", "ioReading"):
